@@ -74,8 +74,15 @@ class NexusFitter(object):
             max_calls = kc("core", "fitters", "nexus_fitter", "max_calls")
 
         self.__minimizing = True
-        self._minimizer.minimize(max_calls=max_calls)
-        self.__minimizing = False
+        try:
+            self._minimizer.minimize(max_calls=max_calls)
+        except Exception:
+            # the nexus holds the last point that was tried: go back to the values the minimizer reports
+            for _par, _value in zip(self._fit_pars, self._minimizer.parameter_values):
+                _par.value = _value
+            raise
+        finally:
+            self.__minimizing = False
 
         # evaluate function one more time with the final parameters,
         # in order to ensure the nexus is up to date
